@@ -91,6 +91,18 @@ def sweep_cases(tier):
                     spec = [E(b"f", "file", content=c), E(b"g", "file", content=c), E(b"h", "file", content=c[:max(0, len(c) - 1)] + b"!")]
                     yield dict(kind="sweep-filesize", names=("size=%d" % s, cls, comp, "bs=%d" % bs), spec=spec,
                                cfg=dict(comp=comp, bs=bs), mode="packfile")
+    # (b2) files made of repeating blocks, neighbours in the image: a block run that matches partly in the previous file and partly in the file itself
+    P, Q = content_pattern("P", B), content_pattern("Q", B)
+    units = [("P", P), ("PQ", P + Q)]
+    for uname, u in units:
+        for i in (1, 2, 3):
+            for j in (1, 2, 3, 4):
+                for tail in (0, 10):
+                    if quick and (tail and (i, j) not in ((1, 2), (2, 3))):
+                        continue
+                    spec = [E(b"a", "file", content=u * i), E(b"b", "file", content=u * j + content_pattern("t", tail)), E(b"c", "file", content=content_pattern("c", B + 3))]
+                    yield dict(kind="sweep-repeated-blocks", names=(uname, "a=%d" % i, "b=%d" % j, "tail=%d" % tail), spec=spec,
+                               cfg=dict(comp="gzip", bs=B) if (i + j) % 2 else dict(comp="lz4", bs=B, T=1), mode="packfile")
     # (c) distinct owner ids
     for n in ([1, 2, 255, 256, 257] if quick else [1, 2, 255, 256, 257, 2047, 2048, 2049, 65534, 65535, 65536, 65537]):
         # n distinct ids in total (0 is always there for the root)
